@@ -43,6 +43,9 @@ FLOAT_BATTERY = [
 ]
 
 
+WIDE_DIVISORS = ['3', '7', '6', '0.003', '0.7', '0.3']
+
+
 def prepare(it):
     it.call('init::init', [])
 
@@ -93,9 +96,54 @@ def oracle_literal(it, bs):
 
 
 def harness(it, px, params):
-    fam = ['literal', 'exponent', 'arith', 'zeros', 'long'][pick_config(px, 'fam', 5)]
+    fam = ['literal', 'exponent', 'arith', 'zeros', 'long', 'wide'][pick_config(px, 'fam', 6)]
     px.notes.append(fam)
     rec = {'family': fam}
+    if fam == 'wide':
+        # operands at the edge of the 28-digit / 96-bit range: a literal of W symbolic digits (optional '.' at a symbolic
+        # place) under % and %= with a small concrete divisor; the exact remainder is linear in the digits
+        W = params['WIDE'][pick_config(px, 'wlen', len(params['WIDE']))]
+        dv = WIDE_DIVISORS[pick_config(px, 'wdiv', len(WIDE_DIVISORS))]
+        form = pick_config(px, 'wform', 2)
+        bs = [px.bv('b%d' % i, 8) for i in range(W)]
+        dot = px.bv('dotpos', 8)
+        for i, b in enumerate(bs):
+            isd = z3.And(z3.UGE(b, z3.BitVecVal(0x30, 8)), z3.ULE(b, z3.BitVecVal(0x39, 8)))
+            px.add(z3.If(dot == i, b == 0x2E, isd) if 0 < i < W - 1 else isd)
+        px.add(dot != 0)
+        px.get_model()
+        orc = oracle_literal(it, bs)
+        if orc[0] != 'num' or orc[2] > 28 or not it.truth(re_.I(orc[1]) <= (1 << 96) - 1):
+            rec['outcome'] = 'skipped'
+            return rec
+        if form == 0:
+            text = Str(tuple(bs) + tuple(b' % ' + dv.encode()))
+        else:
+            text = Str(tuple(b'x = ') + tuple(bs) + tuple(b' ; x %= ' + dv.encode() + b' ; x'))
+        got = api.execute(it, text, api.new_context(it))
+        ip, _, fp_ = dv.partition('.')
+        a, c = api.V_num(orc[1], orc[2]), api.V_num(int(ip + fp_), len(fp_))
+        want_kind, want = 'ok', None
+        try:
+            want = re_.RefEval(it.truth).infix_calc('%', a, c)
+        except re_.RefErr:
+            want_kind = 'err'
+        except re_.Outside:
+            want_kind = 'outside'
+        px.cover('wide-remainder')
+        mm = px.get_model()
+        rec['witness'] = px.eval_bytes(mm, text.b).hex()
+        rec['outcome'] = got.kind
+        if want_kind == 'outside':
+            return rec
+        if got.kind != want_kind:
+            px.finding(finding('arith|%%|wide|%s-vs-%s' % (got.kind, want_kind), 'a remainder of a %d-digit number gives %s where exact decimal arithmetic gives %s' % (W, got.kind, want_kind), rec['witness']))
+        elif got.kind == 'ok':
+            okv, cm = px.check(re_.value_eq(got.value, want))
+            if not okv:
+                rec['witness'] = px.eval_bytes(cm, text.b).hex()
+                px.finding(finding('arith|%|wide|inexact', 'the remainder of a %d-digit number differs from exact decimal arithmetic' % W, rec['witness']))
+        return rec
     if fam == 'long':
         # long literals: every byte a symbolic digit, optionally one '.' at a symbolic place (64-bit and 96-bit boundaries)
         L = params['LONG'][pick_config(px, 'llen', len(params['LONG']))]
@@ -270,6 +318,7 @@ def native_wrong(o, want):
 def run(ctx):
     params = {'LIT': 5 if ctx.tier == 'quick' else 7, 'SCALES': [0, 1, 2] if ctx.tier == 'quick' else [0, 1, 2, 3, 4],
               'LONG': (17, 18, 19, 20, 28, 29) if ctx.tier == 'quick' else tuple(range(8, 32)),
+              'WIDE': (28, 29, 30) if ctx.tier == 'quick' else (20, 24, 26, 27, 28, 29, 30),
               'seed': ctx.seed, 'timeout_ms': 10000 if ctx.tier == 'quick' else 60000, 'step_limit': 400000}
     eng = ctx.engine('dev')
     recs, summ = ex.explore(eng, harness, params, prepare=prepare)
@@ -288,7 +337,7 @@ def run(ctx):
     covers = set()
     for r in recs:
         covers.update(r.get('covers', []))
-    for need in ['literal-valid', 'literal-invalid', 'zeros', 'long-literal'] + ['arith-' + o for o in OPS]:
+    for need in ['literal-valid', 'literal-invalid', 'zeros', 'long-literal', 'wide-remainder'] + ['arith-' + o for o in OPS]:
         if need not in covers and not float_reached:
             inconclusive.append('vacuity: cover %s not reached' % need)
     groups = {}
@@ -368,7 +417,7 @@ def run(ctx):
             'traces_validated_against_impl': validated, 'samples': samples[:40], 'exhaustive': not summ.get('truncated') and not inconclusive,
             'bound': {'literal_bytes_max': params['LIT'], 'literal_alphabet': '0-9 . e E (+ exponent-sign forms)', 'arith_digits': '1-2 integer digits, scale from %s, all digits symbolic' % params['SCALES'],
                       'operators': OPS, 'compound_assignment_forms': ['+=', '-=', '*=', '%='],
-                      'long_literal_lengths': list(params['LONG']), 'long_literal_shape': 'every byte a symbolic digit, optionally one `.` at a symbolic place'},
+                      'long_literal_lengths': list(params['LONG']), 'wide_remainder': '%% and %%= of a literal of %s symbolic digits (optional point) by each of %s' % (list(params['WIDE']), WIDE_DIVISORS), 'long_literal_shape': 'every byte a symbolic digit, optionally one `.` at a symbolic place'},
             'path_status': by_status, 'outside_model': by_status.get('outside', 0),
             'solver': {'engine': 'z3 ' + z3.get_version_string(), 'queries_sat': summ['sat'], 'queries_unsat': summ['unsat'],
                        'queries_unknown': summ['unknown'], 'solver_s': round(summ['solver_s'], 2)},
